@@ -155,6 +155,9 @@ type runner struct {
 	root  *root
 	trace *bufio.Writer
 	forge *rand.Rand
+	// a predicate failed in the behaviour being replayed: what follows is a
+	// consequence of that state, so the behaviour ends there
+	violated bool
 }
 
 func TestReplay(t *testing.T) {
@@ -222,6 +225,7 @@ func (r *runner) emit(ev *traceEvent) {
 }
 
 func (r *runner) violate(b *behaviour, upto int, pred, cause, what string) {
+	r.violated = true
 	key := "c09/" + pred
 	if cause != "" {
 		key += "/" + cause
@@ -255,7 +259,11 @@ func (r *runner) replay(b *behaviour, base string) {
 	r.emit(&traceEvent{Ev: "reset", B: b.ID, Crash: -1, State: stateObs{Kind: "missing", M: map[string]entryObs{}}, Tomb: tombObs{Kind: "missing", S: []string{}}, Trusted: e.trusted()})
 	labels := []string{}
 
+	r.violated = false
 	for si := range b.Steps {
+		if r.violated {
+			break
+		}
 		st := &b.Steps[si]
 		if st.Op == "restart" {
 			e.boot()
@@ -383,6 +391,10 @@ func (r *runner) replay(b *behaviour, base string) {
 			e.res = nil
 			down = true
 			r.res.Count("crashes", 1)
+			// what a process starting now would find
+			trustedAfter = []string{}
+			stateAfter = e.observeState()
+			tombAfter = e.observeTomb()
 		}
 
 		// ---- oracle ---------------------------------------------------------
@@ -499,7 +511,7 @@ func (r *runner) replay(b *behaviour, base string) {
 		// RevokedNeverAgain (recorded revocations), at the fetch and at rest
 		for k := range T {
 			if len(atFetch) > 0 && revAccBefore[k] {
-				r.violate(b, si, "RevokedNeverAgain", o.cause(sc, k, st, nil)+"@fetch", fmt.Sprintf(
+				r.violate(b, si, "RevokedNeverAgain", o.cause(sc, k, st, nil), fmt.Sprintf(
 					"%s was trusted when the refresh went out although its self-signed revocation had been accepted and recorded", k))
 			}
 		}
